@@ -3,6 +3,7 @@
 package main
 
 import (
+	"time"
 	"bufio"
 	"flag"
 	"fmt"
@@ -40,6 +41,11 @@ func main() {
 		runC11(*seed, *count)
 	case "C18":
 		runC18rf(*seed, *count)
+		if *count >= 10000 {
+			runC18cap(*seed, 31*time.Second)
+		} else {
+			runC18cap(*seed, 5500*time.Millisecond)
+		}
 	case "C13":
 		runC13tcp(*seed, *count)
 	case "C15":
